@@ -269,7 +269,7 @@ def cells(tier):
         nops = 10 if kind == "gettz" else 7
         for first in range(nops):
             cs.append(Cell(M, "h_history", dict(kind=kind, length=(3 if kind == "gettz" else 4) if q else (4 if kind == "gettz" else 5), first=first),
-                           budget_s=240 if q else 1500, max_violations=500))
+                           budget_s=240 if q else 700, max_violations=500))
     for kind in ("tzoffset", "tzstr", "gettz", "tzutc"):
         for same in ((True,) if kind == "tzutc" else (True, False)):
             cs.append(Cell(M, "h_threads", dict(kind=kind, same_key=same, preemptions=1), budget_s=120, max_violations=500))
